@@ -863,6 +863,13 @@ def generate():
         far = re.sub(r'\s+', '', ar)
         i_lock, i_chk, i_snd, i_wk = far.find('self.comm.lock()'), far.find('ifcomm.shutdown{return;}'), far.find('.send(RouterMsg::AddRoute(receiver,callback))'), far.find('comm.wake()')
         out.append(f"def shape_addRouteOrder : Bool := {'true' if 0 <= i_lock < i_chk < i_snd < i_wk else 'false'}  -- lock, late-offer check, request, wake-up")
+        # the crossbeam-forwarding handler: a message that does not decode is dropped (repaired) or `unwrap`ped (panics the router thread)
+        frouter = re.sub(r'\s+', '', strip_comments(router))
+        fwd_ok = 'Box::new(move|message|{ifletOk(message)=message.to::<T>(){drop(crossbeam_sender.send(message));}}),' in frouter
+        fwd_legacy = 'Box::new(move|message|drop(crossbeam_sender.send(message.to::<T>().unwrap()))),' in frouter
+        if not fwd_ok and not fwd_legacy:
+            fail("route_ipc_receiver_to_crossbeam_sender: the forwarding handler is not recognised")
+        out.append(f"def vFwdUnwraps : Bool := {'false' if fwd_ok else 'true'}  -- false: `if let Ok(message) = message.to::<T>() {{ … }}`")
         _, _, wk = find_fn(router, 'wake')
         fwk = re.sub(r'\s+', '', wk)
         out.append(f"def shape_wakeCoalesced : Bool := {'true' if fwk.startswith('if!self.wakeup_pending.swap(true,Ordering::SeqCst){self.wakeup_sender.send(())?;}Ok(())') else 'false'}")
